@@ -27,6 +27,10 @@
 (*   ctl    control transfers x placement                                  *)
 (*   ctlfn  transfer x function flavour x enclosing construct x purity     *)
 (*   dead   transfer not last in its block x follower x block x function   *)
+(*   ctlx   transfer inside an if / case EXPRESSION x value site x loop     *)
+(*   strc   control character x follower x position x site of a string     *)
+(*          literal (these cases are also run: field `expect`)             *)
+(*   wide   comma-separated construct x number of elements                 *)
 (*                                                                         *)
 (* Characters that do not survive TLC's string handling (CR, NUL, non-     *)
 (* ASCII) are written as the placeholder @Uhhhh@ (hex code point); the     *)
